@@ -5,7 +5,7 @@ CL observer and the seen-identity table of a real ``bp.agent.Agent``, read
 after every received bundle once the loop is quiescent.
 
 Oracle: a reference model of the stated receive policy -- identity = (source,
-creation time, sequence[, fragment offset, total length]); own-source and
+creation time, sequence[, fragment offset, fragment payload length]); own-source and
 already-seen bundles are ignored; the administrative endpoint is delivered;
 otherwise the action of the first route whose pattern matches; no route, nothing.
 '''
@@ -66,7 +66,7 @@ def _gen_history(rng, length):
             continue
         if hist and roll < 0.5:
             base = dict(rng.choice(hist))
-            comp = rng.choice(['src', 'time', 'seq', 'off', 'total', 'dest'])
+            comp = rng.choice(['src', 'time', 'seq', 'off', 'total', 'plen', 'dest'])
             if comp == 'src':
                 base['src'] = rng.choice([src for src in SOURCES if src != base['src']])
             elif comp == 'time':
@@ -76,7 +76,11 @@ def _gen_history(rng, length):
             elif comp == 'off' and base['frag'] is not None:
                 base['frag'] = (base['frag'][0] + 1, base['frag'][1])
             elif comp == 'total' and base['frag'] is not None:
+                # the total length is not part of a fragment's identity: still a repeat
                 base['frag'] = (base['frag'][0], base['frag'][1] + 1)
+            elif comp == 'plen':
+                # the payload length identifies a fragment, not a whole bundle
+                base['plen'] = base['plen'] + 1
             else:
                 # same identity, different destination: still a repeat of the identity
                 base['dest'] = rng.choice(DESTS)
@@ -92,7 +96,7 @@ def _gen_history(rng, length):
             flags |= rng.choice([bpv7.FLAG_REQ_DELIVERY, bpv7.FLAG_REQ_FORWARDING, bpv7.FLAG_REQ_RECEPTION, bpv7.FLAG_REQ_DELETION,
                                  bpv7.FLAG_REQ_DELIVERY | bpv7.FLAG_REQ_RECEPTION | bpv7.FLAG_REQ_FORWARDING | bpv7.FLAG_REQ_DELETION])
         hist.append(dict(src=src, time=rng.choice([1, 5, 1000, 2 ** 33]), seq=rng.randint(0, 3), frag=frag,
-                         dest=rng.choice(DESTS), flags=flags, crc=rng.choice([0, 1, 2]), tag='new',
+                         dest=rng.choice(DESTS), flags=flags, crc=rng.choice([0, 1, 2]), tag='new', plen=rng.choice([4, 9, 30]),
                          report_to=rng.choice(['dtn:none', 'dtn://rep/r'])))
     return hist
 
@@ -110,7 +114,7 @@ def _encode(item, payload):
 def _ident(item):
     base = (item['src'], item['time'], item['seq'])
     if item['frag'] is not None:
-        base += item['frag']
+        base += (item['frag'][0], item['plen'])
     return base
 
 
@@ -139,7 +143,7 @@ def run_history(table, hist, obs):
     violations = []
     kinds = set()
     for step, item in enumerate(hist):
-        payload = ('%s|%s|%d' % (_ident(item), item['dest'], step)).encode('utf8')
+        payload = bytes(((pos * 17) ^ step ^ 0x33) & 0xFF for pos in range(item['plen']))
         enc = _encode(item, payload)
         n_obs, n_cl = len(node.observed), len(node.cl.sent)
         decision, reason = model_step(table, seen_model, item)
